@@ -862,7 +862,10 @@ impl TxLogEntry {
 			tx_type: t,
 			id: id,
 			tx_slate_id: None,
+			#[cfg(not(feature = "verif_hooks"))]
 			creation_ts: Utc::now(),
+			#[cfg(feature = "verif_hooks")]
+			creation_ts: crate::verif::now(),
 			confirmation_ts: None,
 			confirmed: false,
 			amount_credited: 0,
@@ -890,6 +893,10 @@ impl TxLogEntry {
 	/// Update confirmation TS with now
 	pub fn update_confirmation_ts(&mut self) {
 		self.confirmation_ts = Some(Utc::now());
+		#[cfg(feature = "verif_hooks")]
+		{
+			self.confirmation_ts = Some(crate::verif::now());
+		}
 	}
 }
 
